@@ -168,7 +168,7 @@ def run_rules(ctx, cid, n_years):
     ctx.sample({"kind": "rule", "cal": cid, "rule": "min4-first1", "d": ys.start(years[4])})
     # weekday navigation
     for _ in range(150 if ctx.tier == "quick" else 3000):
-        a = rng.choice([lo + 8, hi - 8, rng.randint(lo + 8, hi - 8)]); x = gen.date_of(a, cal)
+        a = rng.choice([lo + 8, hi - 8, rng.randint(lo + 8, hi - 8), rng.randint(-12, 12) if lo + 8 < -12 and hi - 8 > 12 else lo + 9]); x = gen.date_of(a, cal)
         from pyoda_time import DateAdjusters
         d0 = dow_of(a)
         case = {"kind": "nav", "cal": cid, "d": a}
